@@ -9,7 +9,7 @@ import (
 func init() {
 	slip.Define(
 		func(args slip.List) slip.Object {
-			f := Prog2{Function: slip.Function{Name: "prog2", Args: args}}
+			f := Prog2{Function: slip.Function{Name: "prog2", Args: args, SkipEval: []bool{true}}}
 			f.Self = &f
 			return &f
 		},
@@ -48,8 +48,17 @@ type Prog2 struct {
 }
 
 // Call the function with the arguments provided.
-func (f *Prog2) Call(s *slip.Scope, args slip.List, depth int) slip.Object {
+func (f *Prog2) Call(s *slip.Scope, args slip.List, depth int) (result slip.Object) {
 	slip.CheckArgCount(s, depth, f, args, 2, -1)
-
-	return args[1]
+	d2 := depth + 1
+	for i := range args {
+		v := slip.EvalArg(s, args, i, d2)
+		if isTransfer(v) {
+			return v // a return-from, return or go is passed on to its target
+		}
+		if i == 1 {
+			result = slip.Primary(v)
+		}
+	}
+	return
 }
